@@ -131,6 +131,8 @@ def correspond(ctx):
     if res['failing']: out['first_disagreement'] = [meta[i] for i in res['failing'][:3]]
     # the flatteners as REGENERATED from the source (Gen/Sample.v; equal to the hand model by Proofs/Bridge2.v)
     kernels.merge_cross_check(out, 'C17', ['Line_flatten', 'Quad_flatten', 'Cubic_flatten'], ctx.n(25, 300), ctx.rng)
+    # BezierPath.flatten itself as regenerated from path/__init__.py (Gen/PathOps.v; equal to the hand model's path_flatten by Proofs/Bridge5.v)
+    kernels.merge_cross_check(out, 'C17', ['Path_flatten'], ctx.n(30, 300), ctx.rng, label='regenerated-kernels-round5')
     return out
 
 
